@@ -36,6 +36,19 @@ class Reductions(object):
 
     def reduce(self, fr, kind, summand, extra=()):
         low = self._lower()
+        if kind == 'sum' and not extra:
+            # linearity of sums: SUM(sum_k c_k a_k) = sum_k c_k SUM(a_k) over the linear form of the summand
+            terms = low.linform(summand)
+            if not (len(terms) == 1 and terms[0][1] is summand):
+                acc = None
+                for c, a in terms:
+                    t = core._sc(c) * self._reduce1(fr, kind, a, extra)
+                    acc = t if acc is None else acc + t
+                return acc if acc is not None else S.lift(0.0)
+        return self._reduce1(fr, kind, summand, extra)
+
+    def _reduce1(self, fr, kind, summand, extra=()):
+        low = self._lower()
         ls = low(summand)
         for r in self.records:
             if r.kind == kind and r.extra == extra and type(r.low) is type(ls) and self._equal(r.low, ls):
